@@ -7,7 +7,7 @@
    to the difference of the decode times, and nothing else: none lost, duplicated, reordered or
    invented. *)
 From Coq Require Import List ZArith Bool Lia Arith.
-From GoHls Require Import Model.Mux Proofs.MuxStream Proofs.MuxLift Proofs.MuxWindow Proofs.MuxHistory.
+From GoHls Require Import Model.Mux Proofs.MuxStream Proofs.MuxLift Proofs.MuxWindow Proofs.MuxHistory Proofs.MuxTimes.
 Import ListNotations.
 Local Open Scope Z_scope.
 
@@ -37,7 +37,8 @@ Record LI (m : mstate) : Prop := {
   li_tracks : forall i t, nth_error (m_tracks m) i = Some t -> tk_stream t = i;
   li_sync : (forall s, In s (m_streams m) -> st_open s = None)
             \/ (forall s, In s (m_streams m) -> st_open s <> None);
-  li_part : forall s, In s (m_streams m) -> st_open s <> None -> st_openpart s <> None
+  li_part : forall s, In s (m_streams m) -> st_open s <> None -> st_openpart s <> None;
+  li_len : length (m_streams m) = length (m_tracks m)
 }.
 
 (* ---- small list facts ---- *)
@@ -304,3 +305,266 @@ Proof.
     destruct (nth_error (m_streams m) j) as [sj|] eqn:Ej; [|reflexivity]. f_equal.
     apply (buffered_other _ _ sj j (HL j sj Ej)). apply nth_error_upd_other. congruence.
 Qed.
+
+(* ================================================================================================
+   The structural invariant LI is kept by every primitive operation.
+   ================================================================================================ *)
+Definition okpart (v : variant) (s : stream) : Prop := v <> MPEGTS -> st_open s <> None -> st_openpart s <> None.
+
+Definition Keep (v : variant) (s s' : stream) : Prop :=
+  st_tracks s' = st_tracks s /\ (st_open s = None <-> st_open s' = None) /\ (okpart v s -> okpart v s').
+
+Lemma Keep_refl v s : Keep v s s.
+Proof. repeat split; auto. Qed.
+
+Lemma Forall2_upd_const {A} (Q : A -> A -> Prop) l i s s' :
+  (forall x, Q x x) -> nth_error l i = Some s -> Q s s' -> Forall2 Q l (upd l i (fun _ => s')).
+Proof.
+  intros Hr. revert i. induction l as [|x l IH]; intros [|i] Hn Hq; simpl in *; try discriminate.
+  - injection Hn as ->. constructor; [exact Hq|]. clear IH. induction l; constructor; auto.
+  - constructor; auto.
+Qed.
+
+Lemma Forall2_upd_fun {A} (Q : A -> A -> Prop) l i f :
+  (forall x, Q x x) -> (forall x, Q x (f x)) -> Forall2 Q l (upd l i f).
+Proof.
+  intros Hr Hf. revert i. induction l as [|x l IH]; intros [|i]; simpl; constructor; auto.
+  clear IH. induction l; constructor; auto.
+Qed.
+
+Lemma Forall2_nth {A} (Q : A -> A -> Prop) l l' : Forall2 Q l l' ->
+  forall j y, nth_error l' j = Some y -> exists x, nth_error l j = Some x /\ Q x y.
+Proof.
+  induction 1 as [|a b l l' Hab HF IH]; intros [|j] y Hy; simpl in *; try discriminate.
+  - injection Hy as <-. eauto.
+  - now apply IH.
+Qed.
+
+Lemma Forall2_In_r {A} (Q : A -> A -> Prop) l l' : Forall2 Q l l' ->
+  forall y, In y l' -> exists x, In x l /\ Q x y.
+Proof.
+  induction 1 as [|a b l l' Hab HF IH]; intros y Hy; simpl in *; [destruct Hy|].
+  destruct Hy as [<-|Hy]; [eauto|]. destruct (IH y Hy) as (x & Hx & Hq). eauto.
+Qed.
+
+Lemma Forall2_In_l {A} (Q : A -> A -> Prop) l l' : Forall2 Q l l' ->
+  forall x, In x l -> exists y, In y l' /\ Q x y.
+Proof.
+  induction 1 as [|a b l l' Hab HF IH]; intros x Hx; simpl in *; [destruct Hx|].
+  destruct Hx as [<-|Hx]; [eauto|]. destruct (IH x Hx) as (y & Hy & Hq). eauto.
+Qed.
+
+Lemma Forall2_len {A} (Q : A -> A -> Prop) l l' : Forall2 Q l l' -> length l = length l'.
+Proof. induction 1; simpl; auto. Qed.
+
+Lemma LI_pointwise m m' :
+  m_cfg m' = m_cfg m -> map tk_stream (m_tracks m') = map tk_stream (m_tracks m) ->
+  Forall2 (Keep (c_variant (m_cfg m))) (m_streams m) (m_streams m') ->
+  LI m -> LI m'.
+Proof.
+  intros Ec Et HF [L1 L2 L3 L4 L5 L6]. constructor.
+  - now rewrite Ec.
+  - intros j s' Hs'. destruct (Forall2_nth _ _ _ HF j s' Hs') as (s & Hs & K1 & _). rewrite K1. now apply L2.
+  - intros i t' Ht'.
+    assert (H : option_map tk_stream (nth_error (m_tracks m') i) = option_map tk_stream (nth_error (m_tracks m) i))
+      by (rewrite <- !nth_error_map, Et; reflexivity).
+    rewrite Ht' in H. simpl in H. destruct (nth_error (m_tracks m) i) as [t|] eqn:E; simpl in H; [|discriminate].
+    injection H as ->. now apply L3.
+  - destruct L4 as [L4|L4]; [left|right]; intros s' Hs';
+      destruct (Forall2_In_r _ _ _ HF s' Hs') as (s & Hs & _ & K2 & _); specialize (L4 s Hs); tauto.
+  - intros s' Hs' Ho. destruct (Forall2_In_r _ _ _ HF s' Hs') as (s & Hs & _ & _ & K3).
+    apply K3; auto. intros _. now apply L5.
+  - rewrite <- (Forall2_len _ _ _ HF), L6, <- (map_length tk_stream (m_tracks m)), <- Et. now rewrite map_length.
+Qed.
+
+Lemma LI_ext m m' :
+  m_cfg m' = m_cfg m -> m_streams m' = m_streams m ->
+  map tk_stream (m_tracks m') = map tk_stream (m_tracks m) -> LI m -> LI m'.
+Proof.
+  intros Ec Es Et. apply LI_pointwise; auto. rewrite Es.
+  clear. induction (m_streams m); constructor; auto using Keep_refl.
+Qed.
+
+Lemma tk_stream_of_static l l' : map tk_static l' = map tk_static l -> map tk_stream l' = map tk_stream l.
+Proof.
+  intros H. assert (E : map (fun t => snd (tk_static t)) l' = map (fun t => snd (tk_static t)) l).
+  { rewrite <- !(map_map tk_static snd). now rewrite H. }
+  exact E.
+Qed.
+
+Lemma tk_stream_of_frame l l' : map tk_frame l' = map tk_frame l -> map tk_stream l' = map tk_stream l.
+Proof.
+  intros H. assert (E : map (fun t => snd (fst (fst (tk_frame t)))) l' = map (fun t => snd (fst (fst (tk_frame t)))) l).
+  { rewrite <- !(map_map tk_frame (fun x => snd (fst (fst x)))). now rewrite H. }
+  exact E.
+Qed.
+
+Lemma LI_rotp m si d : LI m -> LI (stream_rotateParts m si d true).
+Proof.
+  intros HL. pose proof HL as [L1 L2 L3 L4 L5 L6].
+  destruct (rotp_spec m si d true) as [[E1 E2]|(s & seg & p0 & Es & Eo & Ep & E1 & E2)].
+  - apply (LI_ext m); auto using cfg_stream_rotateParts. now rewrite E2.
+  - cbv zeta in E1, E2. apply (LI_pointwise m); [apply cfg_stream_rotateParts| | |exact HL].
+    + rewrite E2. apply tk_stream_of_static.
+      destruct (part_finalize_linked p0 (m_tracks m) s si d (L2 si s Es)) as (_ & _ & _ & P4). exact P4.
+    + rewrite E1. apply Forall2_upd_const with (s := s); auto using Keep_refl.
+      destruct (srot_parts_frame (c_variant (m_cfg m)) s seg (fst (part_finalize p0 (m_tracks m) (st_tracks s) d)) d true)
+        as (_ & _ & _ & _ & _ & _ & _ & F8 & F9).
+      split; [apply srot_parts_tracks|]. split; [rewrite F8, Eo; split; discriminate|].
+      intros _ _ _. rewrite F9. discriminate.
+Qed.
+
+(* ---- stream_rotateSegments, fMP4 variants, by cases on the rotated stream ---- *)
+Lemma if_add_err (b : bool) x :
+  m_streams (if b then add_err x else x) = m_streams x /\ m_tracks (if b then add_err x else x) = m_tracks x
+  /\ m_cfg (if b then add_err x else x) = m_cfg x.
+Proof. destruct b; auto. Qed.
+
+Lemma rots_cases m si d ntp f :
+  c_variant (m_cfg m) <> MPEGTS ->
+  (forall s, nth_error (m_streams m) si = Some s -> st_open s <> None -> st_openpart s <> None) ->
+  let r := stream_rotateSegments m si d ntp f in
+  (m_streams r = m_streams m /\ m_tracks r = m_tracks m)
+  \/ exists s seg p0 s2,
+       nth_error (m_streams m) si = Some s /\ st_open s = Some seg /\ st_openpart s = Some p0 /\
+       m_streams r = upd (m_streams m) si (fun _ => s2) /\
+       m_tracks r = snd (part_finalize p0 (m_tracks m) (st_tracks s) d) /\
+       st_tracks s2 = st_tracks s /\ st_open s2 <> None /\ st_openpart s2 <> None.
+Proof.
+  intros Hv Hok. cbv zeta. unfold stream_rotateSegments.
+  assert (Em1 : (match c_variant (m_cfg m) with MPEGTS => m | _ => stream_rotateParts m si d false end)
+                = stream_rotateParts m si d false) by (destruct (c_variant (m_cfg m)); congruence).
+  rewrite Em1. clear Em1.
+  destruct (rotp_spec m si d false) as [[E1 E2]|(s & seg & p0 & Es & Eo & Ep & E1 & E2)]; cbv zeta in E1, E2.
+  - (* the part rotation did nothing: the stream is absent or not open *)
+    rewrite E1.
+    destruct (nth_error (m_streams m) si) as [s|] eqn:Es; [|left; auto].
+    destruct (st_open s) as [seg0|] eqn:Eo; [|left; auto].
+    exfalso.
+    (* open with an open part: the part rotation would have happened *)
+    assert (Hp : st_openpart s <> None) by (apply Hok; congruence).
+    destruct (st_openpart s) as [p0|] eqn:Ep; [|congruence].
+    unfold stream_rotateParts in E1. rewrite Es, Ep, Eo in E1.
+    destruct (part_finalize p0 (m_tracks m) (st_tracks s) d) as [p tracks'].
+    destruct (srot_parts (c_variant (m_cfg m)) s seg0 p d false) as [s' bump] eqn:Er.
+    destruct (if_add_err bump (set_paths (set_tracks (set_stream m (upd (m_streams m) si (fun _ => s'))) tracks')
+                (paths_rot_parts (c_variant (m_cfg m)) (m_paths m) si (p_id p) (st_nextPart s + 1)))) as (A & _ & _).
+    rewrite A in E1. cbn [set_paths set_tracks set_stream m_streams] in E1.
+    assert (Hn : nth_error (upd (m_streams m) si (fun _ => s')) si = Some s')
+      by apply (nth_error_upd_same _ si (fun _ => s') s Es).
+    rewrite E1, Es in Hn. injection Hn as <-.
+    pose proof (srot_parts_frame (c_variant (m_cfg m)) s seg0 p d false) as HF. cbv zeta in HF. rewrite Er in HF.
+    cbn [fst] in HF. destruct HF as (_ & _ & _ & _ & _ & _ & F7 & _). lia.
+  - (* the part rotation closed the open part; the stream is still open, so the segment rotates *)
+    right.
+    set (pf := part_finalize p0 (m_tracks m) (st_tracks s) d) in *.
+    set (s1 := fst (srot_parts (c_variant (m_cfg m)) s seg (fst pf) d false)) in *.
+    assert (Hn1 : nth_error (m_streams (stream_rotateParts m si d false)) si = Some s1)
+      by (rewrite E1; apply (nth_error_upd_same _ si _ s Es)).
+    destruct (srot_parts_frame (c_variant (m_cfg m)) s seg (fst pf) d false) as (_ & _ & _ & _ & _ & _ & _ & F8 & _).
+    fold s1 in F8.
+    rewrite Hn1, F8.
+    match goal with |- context [srot_segments ?a ?b ?c ?dd ?e ?ff ?g ?h] =>
+      pose proof (srot_segments_frame a b c dd e ff g h) as HF; cbv zeta in HF;
+      pose proof (srot_segments_tracks a b c dd e ff g h) as HT;
+      destruct (srot_segments a b c dd e ff g h) as [[s2 regen] bump] eqn:Er end.
+    cbn [fst] in HF, HT. destruct HF as (_ & _ & _ & _ & _ & F6 & F7 & _).
+    exists s, seg, p0, s2. repeat split; auto.
+    + match goal with |- m_streams (if ?b then add_err ?x else ?x) = _ => destruct (if_add_err b x) as (A & _ & _); rewrite A end.
+      cbn [set_paths set_stream m_streams]. rewrite E1. apply upd_upd_const.
+    + match goal with |- m_tracks (if ?b then add_err ?x else ?x) = _ => destruct (if_add_err b x) as (_ & A & _); rewrite A end.
+      cbn [set_paths set_stream m_tracks]. exact E2.
+    + rewrite HT. subst s1. apply srot_parts_tracks.
+    + rewrite F6. discriminate.
+    + rewrite F7. destruct (c_variant (m_cfg m)); [congruence|discriminate|discriminate].
+Qed.
+
+Lemma LI_rots m si d ntp f : LI m -> LI (stream_rotateSegments m si d ntp f).
+Proof.
+  intros HL. pose proof HL as [L1 L2 L3 L4 L5 L6].
+  destruct (rots_cases m si d ntp f L1) as [[E1 E2]|(s & seg & p0 & s2 & Es & Eo & Ep & E1 & E2 & T2 & O2 & P2)].
+  - intros s Hs. apply L5. eapply nth_error_In; eauto.
+  - apply (LI_ext m); auto using cfg_stream_rotateSegments. now rewrite E2.
+  - apply (LI_pointwise m); [apply cfg_stream_rotateSegments| | |exact HL].
+    + rewrite E2. apply tk_stream_of_static.
+      destruct (part_finalize_linked p0 (m_tracks m) s si d (L2 si s Es)) as (_ & _ & _ & P4). exact P4.
+    + rewrite E1. apply Forall2_upd_const with (s := s); auto using Keep_refl.
+      split; [exact T2|]. split; [rewrite Eo; split; [discriminate|intros H; congruence]|].
+      intros _ _ _. exact P2.
+Qed.
+
+Lemma LI_create m d ntp : LI m -> LI (createFirstSegment m d ntp).
+Proof.
+  intros [L1 L2 L3 L4 L5 L6]. unfold createFirstSegment. constructor; cbn [set_stream m_cfg m_streams m_tracks]; auto.
+  - intros j s'. rewrite nth_error_map. destruct (nth_error (m_streams m) j) as [s|] eqn:Es; [|discriminate].
+    intros [= <-]. cbn [stream_createFirst st_with st_tracks]. now apply L2.
+  - right. intros s' Hs'. apply in_map_iff in Hs'. destruct Hs' as (s & <- & _). discriminate.
+  - intros s' Hs' _. apply in_map_iff in Hs'. destruct Hs' as (s & <- & _).
+    cbn [stream_createFirst st_with st_openpart x_openpart]. destruct (c_variant (m_cfg m)); [congruence|discriminate|discriminate].
+  - now rewrite map_length.
+Qed.
+
+Lemma LI_upd_stream m i f :
+  (forall s, Keep (c_variant (m_cfg m)) s (f s)) -> LI m -> LI (upd_stream m i f).
+Proof.
+  intros Hf HL. apply (LI_pointwise m); auto. unfold upd_stream. cbn [set_stream m_streams].
+  apply Forall2_upd_fun; auto using Keep_refl.
+Qed.
+
+Lemma LI_copy m i (l : stream) (both : bool) : LI m -> LI (upd_stream m i (copy_targets both l)).
+Proof.
+  apply LI_upd_stream. intros s. unfold copy_targets. destruct (st_leading s); [apply Keep_refl|].
+  repeat split; auto.
+Qed.
+
+Lemma LI_frame m tracks pending sdurs adj freeze errs :
+  map tk_frame tracks = map tk_frame (m_tracks m) -> LI m ->
+  LI {| m_cfg := m_cfg m; m_tracks := tracks; m_streams := m_streams m; m_pending := pending;
+        m_sdurs := sdurs; m_adj := adj; m_freeze := freeze; m_paths := m_paths m; m_errs := errs |}.
+Proof. intros Hf. apply LI_ext; auto. cbn [m_tracks]. now apply tk_stream_of_frame. Qed.
+
+Lemma upd_ext_at {A} (l : list A) i f s : nth_error l i = Some s -> upd l i f = upd l i (fun _ => f s).
+Proof.
+  revert i. induction l as [|x l IH]; intros [|i] H; simpl in *; try discriminate; auto.
+  - now injection H as ->.
+  - f_equal. now apply IH.
+Qed.
+
+Lemma LI_pws m ti si smp m' : LI m -> part_writeSample m ti si smp = Ok m' -> LI m'.
+Proof.
+  intros HL. unfold part_writeSample.
+  destruct (nth_error (m_streams m) si) as [s|] eqn:Es; [|now intros [= <-]].
+  destruct (nth_error (m_tracks m) ti) as [t|] eqn:Et; [|now intros [= <-]].
+  destruct (st_open s) as [seg|] eqn:Eo; [|now intros [= <-]].
+  destruct (st_openpart s) as [p|] eqn:Ep; [|now intros [= <-]].
+  destruct (_ <? _); [discriminate|]. intros [= <-].
+  apply (LI_pointwise m); auto.
+  - unfold upd_stream, upd_track. cbn [set_stream set_tracks m_tracks]. apply map_upd_static. intros x. reflexivity.
+  - unfold upd_stream, upd_track. cbn [set_stream set_tracks m_streams].
+    rewrite (upd_ext_at _ si _ s Es).
+    apply Forall2_upd_const with (s := s); auto using Keep_refl.
+    repeat split; cbn [st_with st_open st_openpart x_open x_openpart]; try discriminate; try congruence.
+Qed.
+
+Lemma LI_ts m si u size e inc : LI m -> LI (fst (ts_write m si u size e inc)).
+Proof.
+  intros HL. unfold ts_write.
+  destruct (nth_error (m_streams m) si) as [s|] eqn:Es; [|exact HL].
+  destruct (st_open s) as [seg|] eqn:Eo; [|exact HL].
+  destruct (_ <? _); [exact HL|]. cbn [fst wok].
+  apply (LI_pointwise m); auto.
+  unfold upd_stream. cbn [set_stream m_streams]. rewrite (upd_ext_at _ si _ s Es).
+  apply Forall2_upd_const with (s := s); auto using Keep_refl.
+  repeat split; cbn [st_with st_open st_openpart x_open x_openpart st_mut]; try discriminate; try congruence.
+  intros Hk Hv Ho. apply Hk; auto. congruence.
+Qed.
+
+(* ---- LI holds in every state reachable from a started fMP4 / Low-Latency muxer ---- *)
+Theorem LI_mux_step m o : LI m -> LI (fst (mux_step m o)).
+Proof.
+  apply (T_mux_step LI); auto using LI_frame, LI_create, LI_rotp, LI_rots, LI_copy, LI_ts.
+  intros m0 ti si smp m' H Hw. eapply LI_pws; eauto.
+Qed.
+
+Theorem LI_mux_run ops : forall m, LI m -> LI (mux_run m ops).
+Proof. induction ops as [|o ops IH]; intros m H; [exact H|]. cbn [mux_run]. apply IH. now apply LI_mux_step. Qed.
